@@ -667,6 +667,11 @@ func genSign(r *Runner, prop string) {
 	add("payload-empty-object", "", func(s *signSpec) { s.payload = "{}" })
 	add("payload-bigint", "", func(s *signSpec) { s.payload = `{"size":12345678901234567890,"f":1.5e300,"n":-0}` })
 	add("payload-dup-keys", "", func(s *signSpec) { s.payload = `{"a":1,"a":2,"é":"é😀"}` })
+	// JSON objects whose member names mean something to a JWT library (registered claims): to this library they are payload bytes
+	for i, pv := range jwtClaimPayloads {
+		pv := pv
+		add(fmt.Sprintf("payload-claim-names-%d", i), "", func(s *signSpec) { s.payload = pv })
+	}
 	add("payload-binary", "cose", func(s *signSpec) { s.payload = "\x00\x01\x02\xff binary" })
 	// times
 	add("st-zero", "", func(s *signSpec) { s.st = time.Time{} })
@@ -680,6 +685,23 @@ func genSign(r *Runner, prop string) {
 		s.st = s.st.Add(100 * time.Millisecond)
 		s.expiry = s.st.Add(800 * time.Millisecond)
 	})
+	// the same instant written differently: another zone, a fresh zone object of the same offset, UTC vs. Local, with and
+	// without a monotonic clock reading (time.Time values that are Equal without being ==)
+	add("expiry-equal-other-zone", "", func(s *signSpec) { s.expiry = s.st.In(time.FixedZone("", 2*3600)) })
+	add("expiry-equal-both-fresh-zone-objects", "", func(s *signSpec) {
+		s.st = s.st.In(time.FixedZone("", 5*3600+1800))
+		s.expiry = s.st.In(time.FixedZone("", 5*3600+1800))
+	})
+	add("expiry-equal-utc-vs-local", "", func(s *signSpec) { s.st = s.st.UTC(); s.expiry = s.st.In(time.Local) })
+	add("expiry-equal-monotonic-reading", "", func(s *signSpec) {
+		n := time.Now()
+		s.st = n.Truncate(0).Add(0)
+		s.st = n
+		s.expiry = n.Round(0)
+		s.longValid = true
+	})
+	add("expiry-minus-1s-other-zone", "", func(s *signSpec) { s.expiry = s.st.Add(-time.Second).In(time.FixedZone("", -9*3600)) })
+	add("expiry-plus-1s-other-zone", "", func(s *signSpec) { s.expiry = s.st.Add(time.Second).In(time.FixedZone("", -9*3600)) })
 	add("expiry-minus-1s", "", func(s *signSpec) { s.expiry = s.st.Add(-time.Second) })
 	add("expiry-later", "", func(s *signSpec) { s.expiry = s.st.Add(24 * time.Hour) })
 	add("expiry-without-st", "", func(s *signSpec) { s.expiry = s.st.Add(time.Hour); s.st = time.Time{} })
@@ -737,6 +759,12 @@ func genSign(r *Runner, prop string) {
 		"Alg", "CTY", "io.cncf.notary.signingtime", "IO.CNCF.NOTARY.EXPIRY"} {
 		k := k
 		add("ext-spec-key:"+k, "", func(s *signSpec) { s.ext = []attrSpec{{k, true, "2030-01-01T00:00:00Z"}} })
+	}
+	for _, base := range []string{"alg", "cty", "crit", "io.cncf.notary.expiry", "io.cncf.notary.signingTime", "io.cncf.notary.signingScheme", "io.cncf.notary.authenticSigningTime"} {
+		for _, tw := range foldTwins(base) {
+			tw := tw
+			add("ext-spec-key-twin:"+tw, "", func(s *signSpec) { s.ext = []attrSpec{{tw, false, "2030-01-01T00:00:00Z"}} })
+		}
 	}
 	for _, k := range []any{int(1), int64(1), int8(1), uint(1), int(2), int64(2), int32(2), int(3), int64(3), uint8(3)} {
 		k := k
@@ -926,4 +954,15 @@ func publicKeysEqual(a, b any) bool {
 		return e.Equal(b)
 	}
 	return false
+}
+
+// jwtClaimPayloads: valid JSON objects that use the names of the registered JWT claims with values of every kind
+var jwtClaimPayloads = []string{
+	`{"exp":1}`, `{"exp":1000000000}`, `{"exp":99999999999}`, `{"exp":"yesterday"}`, `{"exp":{"a":1}}`, `{"exp":null}`, `{"exp":-1}`, `{"exp":1.5e3}`, `{"exp":[1]}`, `{"exp":true}`,
+	`{"iat":99999999999}`, `{"iat":1}`, `{"iat":"soon"}`, `{"iat":false}`, `{"iat":{}}`,
+	`{"nbf":99999999999}`, `{"nbf":1}`, `{"nbf":"later"}`, `{"nbf":true}`, `{"nbf":[]}`,
+	`{"iss":1,"sub":2,"aud":3,"jti":4}`, `{"aud":["a",1,null]}`, `{"aud":{"a":1}}`, `{"iss":null}`,
+	`{"exp":1,"iat":99999999999,"nbf":99999999999,"targetArtifact":{"digest":"sha256:abc","size":1}}`,
+	`{"targetArtifact":{"exp":1,"nbf":99999999999}}`, `{"EXP":1,"Exp":1,"Iat":99999999999}`,
+	`{"exp":12345678901234567890123}`, `{"exp":1e400}`,
 }
